@@ -16,13 +16,13 @@ ASSUMPTIONS = ["ids are compared at the device: a stream is live from its OPEN u
                "in the asyncio twin the allocation contains no await, so tasks cannot interleave inside it"]
 SHARDS = {"quick": 16, "thorough": 16}
 TIME_BUDGET = {"quick": 60, "thorough": 900}
-FLOORS = {"quick": {"schedules": 1500, "opens": 6000, "wraparounds": 200, "line_preemptions_in_open": 1500, "distinct": 1000}, "thorough": {"schedules": 30000, "opens": 100000, "wraparounds": 4000}}
+FLOORS = {"quick": {"schedules": 4000, "opens": 15000, "wraparounds": 500, "line_preemptions_in_open": 4000, "distinct": 3000}, "thorough": {"schedules": 30000, "opens": 100000, "wraparounds": 4000}}
 
 STARTS = [0, 1, 0xFFFFFFFC, 0xFFFFFFFD, 0xFFFFFFFE, 0x7FFFFFFF, 0xFFFFFFFB]
 
 
 def gen_cases(tier, seed):
-    n = 2000 if tier == "quick" else 36000
+    n = 5000 if tier == "quick" else 60000
     for i in range(n):
         yield {"kind": "conc", "impl": "async" if i % 6 == 0 else "sync", "seed": "%d:%d" % (seed, i), "start": STARTS[i % len(STARTS)]}
     for i in range(14 if tier == "quick" else 140):
